@@ -314,6 +314,10 @@ def exit_rule(chk, db, floor=6):
                 # the single-character overloads that do their own scan: a needle of length 1
                 if not (len(f["body"].get("s") or []) == 1 and f["body"]["s"][0].get("k") == "return"):
                     n += exits.check_function(chk, db, f, fam, f["params"][1]["n"], None, "size(this)")
+            elif f.get("body") is not None and len(f["params"]) == 3 and "*" in f["params"][0]["ty"].replace("const_pointer", "*") \
+                    and not (len(f["body"].get("s") or []) == 1 and f["body"]["s"][0].get("k") == "return"):
+                # (pointer, pos, count) overloads that answer some cases themselves: the needle's length is `count`
+                n += exits.check_function(chk, db, f, fam, f["params"][1]["n"], f["params"][2]["n"], "size(this)")
     for fam in ("find", "rfind"):
         for f in db.by_q.get("etl::strings::" + fam, []):
             if f.get("body") is not None and len(f["params"]) == 3 and "basic_string_view" in f["params"][1]["ty"]:
